@@ -225,6 +225,22 @@ theorem compact_keeps_live (a : Arena T) (h : AInv a) :
     a.compact.liveItems = a.liveItems ∧ a.compact.len = a.len ∧ AInv a.compact :=
   let s := compact_spec a h; ⟨s.2.1, s.2.2.1, s.1⟩
 
+/-- what `compact` does to handles: afterwards the live handles are exactly `0 .. len-1`, handle `i` holding the
+    `i`-th live item in old slot order (the old numbering is not kept: the real code computes an index mapping and
+    discards it), and nothing is left to reuse -/
+theorem compact_handles_dense (a : Arena T) (h : AInv a) (i : Nat) :
+    a.compact.get i = a.liveItems[i]? ∧ a.compact.freeCount = 0 ∧ a.compact.storage.length = a.len := by
+  have hc := compact_spec a h
+  refine ⟨?_, hc.2.2.2, by simp only [compact]; exact liveItems_length a h⟩
+  cases hx : a.liveItems[i]? with
+  | none =>
+    apply get_out_of_range
+    simp only [compact]
+    exact List.getElem?_eq_none_iff.mp hx
+  | some x =>
+    rw [get_eq_some_iff _ hc.1]
+    simp [compact, hx]
+
 /-- freed slots are reused before the arena grows (used by C06) -/
 theorem allocate_reuses (a a' : Arena T) (h : AInv a) (x : T) (id : Nat) (he : a.allocate x = .ok (id, a'))
     (hf : a.free ≠ []) : a'.storage.length = a.storage.length := by
